@@ -98,6 +98,7 @@ CHECKS = {
 # Only engines that were reviewed and registered are listed here.
 ENABLED_ENTRIES = [
     "sim/paysim/ENTRY.py",
+    "sim/sweepsim/ENTRY.py",
 ]
 
 
